@@ -625,10 +625,32 @@ impl Xot {
                 }
             }
         }
+        // prefixes we cannot use for a new declaration: those in scope at this
+        // node (names may depend on them) and those declared anywhere below it
+        // (they would shadow the new declaration)
+        let mut taken_prefixes: HashSet<PrefixId> = HashSet::default();
+        for (prefix_id, _) in self.namespaces_in_scope(node) {
+            taken_prefixes.insert(prefix_id);
+        }
+        for descendant in self.descendants(node) {
+            if self.is_element(descendant) {
+                for prefix_id in self.namespaces(descendant).keys() {
+                    taken_prefixes.insert(prefix_id);
+                }
+            }
+        }
         let mut prefixes_to_add = HashMap::default();
-        for (i, namespace_id) in missing_namespace_ids.iter().enumerate() {
-            let prefix = format!("n{}", i);
-            let prefix_id = self.add_prefix(&prefix);
+        let mut counter = 0;
+        for namespace_id in missing_namespace_ids.iter() {
+            let prefix_id = loop {
+                let prefix = format!("n{}", counter);
+                counter += 1;
+                let prefix_id = self.add_prefix(&prefix);
+                if !taken_prefixes.contains(&prefix_id) {
+                    break prefix_id;
+                }
+            };
+            taken_prefixes.insert(prefix_id);
             prefixes_to_add.insert(prefix_id, namespace_id);
         }
         let mut namespaces = self.namespaces_mut(node);
